@@ -1,9 +1,10 @@
 SPECIFICATION Spec
-CONSTANTS Pfx = {"A", "B"} MaxHops = 2 MaxCid = 2 QCap = 100 MaxDepth = 8 LeakDetached = FALSE AnyState = FALSE
+CONSTANTS Pfx = {"A", "B"} MaxHops = 2 MaxCid = 2 QCap = 100 MaxDepth = 8 LeakDetached = FALSE AnyState = FALSE MaxInst = 2 Lifecycle = FALSE UnloadClears = FALSE CandInit = {TRUE, FALSE}
 INVARIANT TypeOK
 INVARIANT NoRawForAnon
 INVARIANT TunnelledOnlyOverReadyRightCircuit
 INVARIANT QueueBounded
 INVARIANT PlainUnaffected
+INVARIANT SwitchFollowsRequests
 PROPERTY ImplRefinesAbs
 PROPERTY PlainLeavesQueue
